@@ -29,6 +29,7 @@ def sus_case(cid, sus, wint, scale, k, size, rng, o=None, wdtype=None):
     p = np.array(wint, float) * scale if wdtype is None else np.array(wint, dtype=wdtype)
     c = {"id": cid, "kind": "sus", "w": list(wint), "n": k, "scripted": o is not None, "o": o or 0,
          "ws": sorted(wint, reverse=True), "scale": repr(scale), "size": repr(size)}
+    a0, p0 = a.copy(), p.copy()
     try:
         with time_limit(20):
             out = sus(a, p, size, rng)
@@ -36,6 +37,8 @@ def sus_case(cid, sus, wint, scale, k, size, rng, o=None, wdtype=None):
         c.update(cnt=[0] * len(wint), nout=0, shapeok=False, exc="%s: %s" % (type(e).__name__, e))
         return c
     out = np.asarray(out)
+    if not (np.array_equal(a, a0) and np.array_equal(p, p0)):
+        c["argmod"] = True       # the caller's option / weight arrays are the caller's: a second draw from them must see the same weights
     if c["scripted"]:
         # the scripted offset is only meaningful if the function asked for exactly one uniform(0, pointer distance) draw and
         # one shuffle; an implementation that draws differently is validated through the floor/ceiling relation only
@@ -275,6 +278,8 @@ def run(ctx):
             if v != "ok":
                 ctx.violation(site + ":offset-exactly-0:" + v, "offset exactly 0.0: %s (w=%s k=%d cnt=%s)" % (v, c["w"], c["n"], c["cnt"]), c)
             continue
+        if c.get("argmod"):
+            ctx.violation(site + ":arguments-modified", "the call changed the option / weight array it was given", c)
         if c.get("exc"):
             ctx.violation(site + ":exception", "raised %s" % c["exc"], c)
         elif v != "ok":
